@@ -9,12 +9,12 @@ Lemma trun_then : forall steps w tk,
   w_state w = TUnstarted tk ->
   exists w', trun w (map TThen steps) = Some w' /\
              w_state w' = TUnstarted (Task (t_head tk) (t_steps tk ++ steps)) /\
-             w_evs w' = w_evs w /\ w_freed w' = w_freed w /\ w_results w' = w_results w /\ w_ub w' = w_ub w.
+             w_evs w' = w_evs w /\ w_freed w' = w_freed w /\ w_results w' = w_results w.
 Proof.
   induction steps as [|s steps IH]; intros w tk Hs.
   - exists w. cbn. rewrite app_nil_r. destruct tk. repeat split; assumption.
   - cbn [map trun]. unfold tstep. rewrite Hs.
-    destruct (IH (TW (TUnstarted (Task (t_head tk) (t_steps tk ++ [s]))) (w_evs w) (w_freed w) (w_results w) (w_ub w))
+    destruct (IH (TW (TUnstarted (Task (t_head tk) (t_steps tk ++ [s]))) (w_evs w) (w_freed w) (w_results w))
                  (Task (t_head tk) (t_steps tk ++ [s])) eq_refl) as [w' [Hr [Hst H]]].
     exists w'. split; [exact Hr|]. split; [|exact H].
     cbn in Hst. rewrite <- app_assoc in Hst. exact Hst.
@@ -22,9 +22,9 @@ Qed.
 
 Theorem inert : forall h steps,
   exists w, trun (tinit h) (map TThen steps) = Some w /\
-            w_state w = TUnstarted (Task h steps) /\ w_evs w = [] /\ w_freed w = [] /\ w_results w = [] /\ w_ub w = false.
+            w_state w = TUnstarted (Task h steps) /\ w_evs w = [] /\ w_freed w = [] /\ w_results w = [].
 Proof.
-  intros h steps. destruct (trun_then steps (tinit h) (Task h []) eq_refl) as [w [Hr [Hs [He [Hf [Hres Hub]]]]]].
+  intros h steps. destruct (trun_then steps (tinit h) (Task h []) eq_refl) as [w [Hr [Hs [He [Hf Hres]]]]].
   exists w. repeat split; assumption.
 Qed.
 
@@ -171,7 +171,7 @@ Proof.
   - right. exists i. split; [reflexivity|].
     destruct (l_body st i) as [x|v| |r|k p'] eqn:Hb; try (left; inversion Hs; reflexivity).
     right. destruct (run p') as [oi|] eqn:Hr; [|discriminate].
-    exists k, p', oi. repeat split. inversion Hs. reflexivity.
+    exists k, p', oi. split; [reflexivity|]. split; [exact Hr|]. inversion Hs. reflexivity.
   - left. inversion Hs. reflexivity.
 Qed.
 
@@ -191,7 +191,7 @@ Proof. intros par i H. destruct par; cbn in H; inversion H; [left|right|left]; r
 
 Lemma run_head_cancelled : forall h o fr, run_head (SOn XStopped) h = Some (o, fr) -> cancelled o.
 Proof.
-  intros h o fr H. unfold run_head in H. destruct h; cbn in H.
+  intros h o fr H. unfold run_head, head_exec in H. destruct h; cbn [alive negb] in H.
   - inversion H. reflexivity.
   - rewrite run_call_class in H. destruct (par_ok par TVoid); [|discriminate]. unfold by_class in H.
     destruct (invoked par (Err EStop)) as [i|] eqn:Hi.
@@ -212,10 +212,10 @@ Proof.
     rewrite Ha in H. destruct (invoked par (Err EStop)) as [i|] eqn:Hi.
     + pose proof (invoked_stop _ _ Hi) as Hst.
       destruct (body i); try (inversion H; exact Hst). destruct (run p); [inversion H; exact Hst|discriminate].
-    + inversion H. cbn. rewrite He. reflexivity.
+    + inversion H. cbn. try rewrite He. reflexivity.
   - destruct (invoked par (arrives a oq)) as [i|].
     + destruct (body i); try (inversion H; cbn; exact Hc). destruct (run p); [inversion H; cbn; exact Hc|discriminate].
-    + inversion H. cbn. rewrite He. exact Hc.
+    + inversion H. cbn. try rewrite He. exact Hc.
 Qed.
 
 Theorem cancel_first_sees_stop : forall tk o fr, cancel tk = Some (o, fr) -> cancelled o /\ fr = task_ids tk.
@@ -247,7 +247,7 @@ Theorem cancel_silent : forall h steps o fr,
 Proof.
   intros h steps. unfold cancel, run_task. cbn [t_head t_steps].
   induction steps as [|st steps IH] using rev_ind; intros o fr Hh Hs H.
-  - cbn in H. unfold run_head in H. destruct h; cbn in *.
+  - cbn [fold_left] in H. unfold run_head, head_exec in H. destruct h; cbn [alive negb head_recovers] in *.
     + inversion H. split; reflexivity.
     + rewrite run_call_class in H. destruct (par_ok par TVoid); [|discriminate]. unfold by_class in H.
       rewrite (invoked_stop_none _ Hh) in H. inversion H. split; reflexivity.
@@ -276,7 +276,7 @@ Theorem destroy_unstarted : forall w tk w',
   w_state w = TUnstarted tk -> tstep w TDestroy = Some w' ->
   exists o, cancel tk = Some (o, task_ids tk) /\ cancelled o /\
             w_evs w' = w_evs w ++ o_evs o /\ w_freed w' = w_freed w ++ task_ids tk /\ w_results w' = w_results w /\
-            w_state w' = TGone /\ w_ub w' = w_ub w.
+            w_state w' = TGone.
 Proof.
   intros w tk w' Hs H. unfold tstep in H. rewrite Hs in H.
   destruct (cancel tk) as [[o fr]|] eqn:Hc; [|discriminate]. inversion H; subst. cbn.
@@ -284,11 +284,22 @@ Proof.
   exists o. repeat split. exact Hcan.
 Qed.
 
-(* a completed Task whose only core is a ReadyCore or a coroutine: destruction releases it and nothing else happens *)
-Theorem destroy_completed_release : forall w tk o w',
-  w_state w = TCompleted tk o -> drop_completed tk = DRelease -> tstep w TDestroy = Some w' ->
-  w_evs w' = w_evs w /\ w_freed w' = w_freed w /\ w_results w' = w_results w /\ w_ub w' = w_ub w /\ w_state w' = TGone.
+(* a completed Task: destruction releases it and nothing else happens, whatever its cores are *)
+Theorem destroy_completed : forall w tk o w',
+  w_state w = TCompleted tk o -> tstep w TDestroy = Some w' ->
+  w_evs w' = w_evs w /\ w_freed w' = w_freed w /\ w_results w' = w_results w /\ w_state w' = TGone.
 Proof.
-  intros w tk o w' Hs Hd H. unfold tstep in H. rewrite Hs, Hd in H. inversion H. repeat split.
+  intros w tk o w' Hs H. unfold tstep in H. rewrite Hs in H. inversion H. repeat split.
 Qed.
-EOF
+
+(* Await(task) then ~Task, end to end: the chain ran exactly as the eager twin, every functor died once, the
+   destruction added nothing *)
+Theorem await_then_destroy : forall h steps w1 w2,
+  tstep (TW (TUnstarted (Task h steps)) [] [] []) TAwait = Some w1 -> tstep w1 TDestroy = Some w2 ->
+  exists o, run_task SOwn (Task h steps) = Some (o, task_ids (Task h steps)) /            w_evs w2 = o_evs o /\ w_freed w2 = task_ids (Task h steps) /\ w_results w2 = [o_res o] /\ w_state w2 = TGone.
+Proof.
+  intros h steps w1 w2 H1 H2. unfold tstep in H1. cbn [w_state] in H1.
+  destruct (run_task SOwn (Task h steps)) as [[o fr]|] eqn:Hr; [|discriminate].
+  pose proof (freed_exactly_the_chain _ _ _ _ Hr) as Hf. subst fr.
+  inversion H1; subst. cbn in H2. inversion H2; subst. cbn. exists o. repeat split.
+Qed.
